@@ -167,6 +167,7 @@ func driverMain(args []string) {
 					cmd.Env = workerEnv()
 					var stderr strings.Builder
 					cmd.Stderr = &stderr
+					cmd.Stdout = &stderr // race-variant workers redirect fd 2 into their race log; watchdog messages go to stdout
 					if err := cmd.Run(); err != nil {
 						errs[w] = fmt.Errorf("worker %d of %s/%s: %v: %s", w, *prop, ph.Name, err, trunc(stderr.String(), 2000))
 						return
